@@ -27,15 +27,24 @@ struct trk {
   trk &operator=(trk &&o) noexcept { if (o.moved_from) vf_trk_read_moved(o.id); vf_trk_assign_over(id); id = o.id; moved_from = false; o.moved_from = true; vf_trk_move(o.id); return *this; }
   int get() const { if (moved_from) vf_trk_read_moved(id); return id; }
 };
-struct fixtrk {
+struct trkn {   // like trk, but the move operations are not noexcept: generic code that uses move_if_noexcept would COPY it
+  int id; bool moved_from;
+  explicit trkn(int i) : id(i), moved_from(false) {}
+  trkn(trkn const &o) : id(o.id), moved_from(false) { if (o.moved_from) vf_trk_read_moved(o.id); vf_trk_copy(o.id); }
+  trkn(trkn &&o) : id(o.id), moved_from(false) { if (o.moved_from) vf_trk_read_moved(o.id); o.moved_from = true; vf_trk_move(o.id); }
+  trkn &operator=(trkn const &o) { if (o.moved_from) vf_trk_read_moved(o.id); vf_trk_assign_over(id); id = o.id; moved_from = false; vf_trk_copy(o.id); return *this; }
+  trkn &operator=(trkn &&o) { if (o.moved_from) vf_trk_read_moved(o.id); vf_trk_assign_over(id); id = o.id; moved_from = false; o.moved_from = true; vf_trk_move(o.id); return *this; }
+  int get() const { if (moved_from) vf_trk_read_moved(id); return id; }
+};
+template <typename trk> struct fixt {
   using value_type = trk; using size_type = std::size_t; using difference_type = std::ptrdiff_t; using reference = trk &; using const_reference = trk const &;
   using iterator = trk *; using const_iterator = trk const *; using pointer = trk *; using const_pointer = trk const *;
   trk d[4]; std::size_t n;   // slots >= n hold placeholders that are only ever assigned over
-  fixtrk() : d{trk{-1}, trk{-1}, trk{-1}, trk{-1}}, n(0) {}
-  fixtrk(fixtrk const &o) : fixtrk() { for (std::size_t i = 0; i < 4 && i < o.n; ++i) d[i] = o.d[i]; n = o.n; }
-  fixtrk(fixtrk &&o) noexcept : fixtrk() { for (std::size_t i = 0; i < 4 && i < o.n; ++i) d[i] = std::move(o.d[i]); n = o.n; o.n = 0; }
-  fixtrk &operator=(fixtrk const &o) { if (this != &o) { for (std::size_t i = 0; i < 4 && i < o.n; ++i) d[i] = o.d[i]; n = o.n; } return *this; }
-  fixtrk &operator=(fixtrk &&o) noexcept { if (this != &o) { for (std::size_t i = 0; i < 4 && i < o.n; ++i) d[i] = std::move(o.d[i]); n = o.n; o.n = 0; } return *this; }
+  fixt() : d{trk{-1}, trk{-1}, trk{-1}, trk{-1}}, n(0) {}
+  fixt(fixt const &o) : fixt() { for (std::size_t i = 0; i < 4 && i < o.n; ++i) d[i] = o.d[i]; n = o.n; }
+  fixt(fixt &&o) noexcept : fixt() { for (std::size_t i = 0; i < 4 && i < o.n; ++i) d[i] = std::move(o.d[i]); n = o.n; o.n = 0; }
+  fixt &operator=(fixt const &o) { if (this != &o) { for (std::size_t i = 0; i < 4 && i < o.n; ++i) d[i] = o.d[i]; n = o.n; } return *this; }
+  fixt &operator=(fixt &&o) noexcept { if (this != &o) { for (std::size_t i = 0; i < 4 && i < o.n; ++i) d[i] = std::move(o.d[i]); n = o.n; o.n = 0; } return *this; }
   iterator begin() { return d; } iterator end() { return d + n; } const_iterator begin() const { return d; } const_iterator end() const { return d + n; }
   size_type size() const { return n; } bool empty() const { return n == 0; } void reserve(size_type) {}
   reference back() { return d[n - 1]; } void pop_back() { --n; }
@@ -44,6 +53,7 @@ struct fixtrk {
   iterator insert(const_iterator, trk &&v) { d[n] = std::move(v); return d + n++; }
   template <typename It> iterator insert(const_iterator, It first, It last) { std::size_t const at = n; for (; first != last; ++first) { d[n++] = *first; } return d + at; }
 };
+using fixtrk = fixt<trk>; using fixtrkn = fixt<trkn>;
 static fixtrk mk(std::size_t n, int a0, int a1, int a2){ fixtrk c; if (n > 0) c.push_back(trk{a0}); if (n > 1) c.push_back(trk{a1}); if (n > 2) c.push_back(trk{a2}); return c; }
 static void put(fixtrk const &c, std::size_t *on, int *ids){ *on = c.n; for (std::size_t i = 0; i < 4 && i < c.n; ++i) ids[i] = c.d[i].moved_from ? -2 : c.d[i].id; }   // -2 marks a moved-from element
 #define SRC std::size_t n, int a0, int a1, int a2
@@ -58,6 +68,8 @@ void vf_cjoin_rr(TWO, std::size_t *on, int *ids){ fixtrk x{mk(n1, a0, a1, 0)}, y
 void vf_cjoin_ll(TWO, std::size_t *on, int *ids, std::size_t *xn, int *xids, std::size_t *yn, int *yids){ fixtrk x{mk(n1, a0, a1, 0)}, y{mk(n2, b0, b1, 0)}; vf_mark(); fixtrk r{fcppt::container::join(x, y)}; put(r, on, ids); put(x, xn, xids); put(y, yn, yids); }
 void vf_cjoin_rl(TWO, std::size_t *on, int *ids, std::size_t *yn, int *yids){ fixtrk x{mk(n1, a0, a1, 0)}, y{mk(n2, b0, b1, 0)}; vf_mark(); fixtrk r{fcppt::container::join(std::move(x), y)}; put(r, on, ids); put(y, yn, yids); }
 void vf_cjoin_lr(TWO, std::size_t *on, int *ids, std::size_t *xn, int *xids){ fixtrk x{mk(n1, a0, a1, 0)}, y{mk(n2, b0, b1, 0)}; vf_mark(); fixtrk r{fcppt::container::join(x, std::move(y))}; put(r, on, ids); put(x, xn, xids); }
+int vf_cpop_back_ne(SRC, std::size_t *sn, int *sids){ fixtrkn c; if (n > 0) c.push_back(trkn{a0}); if (n > 1) c.push_back(trkn{a1}); if (n > 2) c.push_back(trkn{a2}); vf_mark(); fcppt::optional::object<trkn> r{fcppt::container::pop_back(c)};
+  *sn = c.n; for (std::size_t i = 0; i < 4 && i < c.n; ++i) sids[i] = c.d[i].moved_from ? -2 : c.d[i].id; return r.has_value() ? r.get_unsafe().get() : -1; }
 int vf_cpop_back(SRC, std::size_t *sn, int *sids){ fixtrk c{mk(n, a0, a1, a2)}; vf_mark(); fcppt::optional::object<trk> r{fcppt::container::pop_back(c)}; put(c, sn, sids); return r.has_value() ? r.get_unsafe().get() : -1; }
 void vf_cmove_clear(SRC, std::size_t *on, int *ids, std::size_t *sn){ fixtrk c{mk(n, a0, a1, a2)}; vf_mark(); fixtrk r{fcppt::move_clear(c)}; put(r, on, ids); *sn = c.size(); }
 // ---- optional::cat / optional::sequence / either::sequence: fixed-capacity sources of optionals / eithers of the instrumented type
